@@ -170,7 +170,8 @@ def build(repo=None):
         return [(s, Opaque("new-category"))]
 
     eng.globals["_make_dtype"] = Fn("_make_dtype", model=m_md)
-    eng.globals["_dtype_is_numpy_struct_array"] = Fn("_dtype_is_numpy_struct_array", model=lambda e, s, a, kw, nd: [(s, Z("bool", IsStruct))])
+    from ..source import struct_dtype_helper
+    eng.globals[struct_dtype_helper(mod)] = Fn("_dtype_is_numpy_struct_array", model=lambda e, s, a, kw, nd: [(s, Z("bool", IsStruct))])
     eng.globals["np"] = Opaque("global:np", attrs={"dtype": Cls("np.dtype")})
     eng.method_models["__isinstance__"] = lambda e, s, v, c: IsNp if isinstance(c, Cls) and c.name == "np.dtype" else None
     st = State()
